@@ -459,6 +459,14 @@ func enumC14(tier string, part, parts, skip int, deadline time.Time, note func(i
 					doHTTP(m, "a", q)
 					doHTTP(m, "a/b", q)
 				}
+				// every special segment in first, middle and last (method) position together with a query string
+				for _, a := range segAlpha {
+					for _, q := range []string{"a=1", "q.r"} {
+						doHTTP(m, "a/"+a, q)
+						doHTTP(m, "a/b/"+a, q)
+						doHTTP(m, a+"/b", q)
+					}
+				}
 				doHTTP(m, "", "")
 				doHTTP(m, "a/", "")
 			}
